@@ -183,6 +183,28 @@ def swap_tree():
     return t
 
 
+def alias_tree():
+    """siblings that share an alias (the first declared one answers to it), aliases with capital letters, a level whose spec is a
+    choice between an option and a folded group that holds only some of the level's options"""
+    P = {"opts": [{"names": "f force", "flag": True}, {"names": "n", "flag": False}, {"names": "s str", "flag": False}], "args": ["N"]}
+    P0 = dict(P, args=[])
+    S = g.Opt("-s")
+    nodes = [node(["app"], "app", g.Seq(g.Optional(F), g.Optional(X)), subs=[1, 2, 3, 4, 5]),
+             node(["remove", "rm"], "app remove", g.Seq(X)),
+             node(["rmdir", "rm", "rd"], "app rmdir", g.Seq(g.Optional(F), g.Optional(X), g.Optional(X))),
+             node(["addAll", "A"], "app addAll", g.Seq(g.Optional(X))),
+             node(["build", "b"], "app build", g.Seq(X), subs=[6]),
+             node(["alt"], "app alt", g.Alt(S, g.Seq(g.Optional(g.Grp(["-f", "-n"])), g.Arg("N"))), prog=P),
+             node(["d1"], "app build d1", g.Seq(g.Optional(F)))]
+    vectors = []
+    for v in (["rm"], ["rm", "x"], ["rm", "x", "y"], ["rm", "-h"], ["rm", "-f", "x"], ["rd", "x"], ["rmdir"], ["remove", "x"], ["-h", "rm"], ["x", "rm", "y"],
+              ["addAll"], ["addall"], ["A", "x"], ["a"], ["ADDALL"], ["Build", "b"], ["build", "x"], ["B", "x"], ["b", "x", "d1"], ["b", "x", "D1"], ["Rm", "x"],
+              ["alt", "-s", "v"], ["alt", "-s", "v", "7"], ["alt", "7"], ["alt", "-f", "7"], ["alt", "-fn7", "12"], ["alt", "-f", "-s", "v", "7"], ["alt", "--str=v", "7"],
+              ["alt", "-fs", "v", "7"], ["alt", "-s=v", "-f", "7"], ["alt"]):
+        vectors.append(v)
+    return {"version": "", "nodes": nodes, "vectors": vectors}
+
+
 def late_tree():
     """declaration-free commands; `late` is added to the application after earlier runs"""
     BARE = {"opts": [], "args": []}
